@@ -12,21 +12,21 @@ T = {
  "C02": ("model_checking", "Size() == bytes written by Encode and EncodeSW, nested box sizes add up, any interleaving of Size/Info/Encode/EncodeSW leaves the bytes identical: every registered box type x body lengths, symbolic body; whole files", "z3"),
  "C03": ("model_checking", "the four decode paths (DecodeBox, DecodeBoxSR, DecodeFile, DecodeFileSR incl. lazy mdat) agree on error/no error, structure and re-encoded bytes for every registered box type x body lengths, symbolic body, and for whole files", "z3"),
  "C04": ("model_checking", "untrusted input: no panic, no allocation or step count beyond a budget linear in the input length while decoding + Info + encoding a box with exact or symbolic (lying) size fields, every registered type; panic/step/allocation monitors inside the symbolic executor, allocation counterexamples re-measured natively", "z3"),
- "C05": ("model_checking", "fragment building API: every sample added through AddFullSample / AddSample / AddSampleInterval / lazy variants comes back from GetFullSamples with its bytes and metadata, trun data offsets point at the bytes, symbolic metadata and payload, bounded sample counts", "z3"),
+ "C05": ("model_checking", "fragment building API: full samples, metadata-only samples with separately written data (lazy variants) and sample intervals, single- and multi-track, several fragments per segment, with/without trun optimisation, both encoders, extra boxes between fragments: encoding and decoding together with the init returns per track and in order the same bytes, size, duration, flags, composition offset and decode time; symbolic metadata and payload, bounded sample counts", "z3"),
  "C06": ("model_checking", "encrypt (cenc/cbcs, AVC and AAC, IV 8/16, NAL sizes around the thresholds, extra boxes in traf) then decrypt restores every sample byte and all metadata; AES-128 is an uninterpreted permutation with D(E(x))=x, so the result holds for every key; init and media decoded jointly and separately", "cvc5"),
  "C07": ("model_checking", "the encrypted form is well-formed: sub-sample entries partition each sample, NAL length/header and non-video NAL units stay clear, protected ranges are whole blocks, per-sample IVs advance by the blocks used, protected bytes equal a reference AES-CTR / CBC run (AES uninterpreted), saio/saiz describe senc; plus the clear/protected ranges for every NAL size 1..40 and around 96+16 / 65535", "cvc5"),
- "C08": ("model_checking", "stbl lookups (stts/ctts/stsc/stsz/stco/stss) agree with an independent reference expansion for every sample number, on progressive files built through the public API with symbolic table contents in a bounded shape", "z3"),
- "C09": ("model_checking", "sample-number/time lookups and their inverses are consistent at and around every table boundary, symbolic table entries, bounded entry counts", "z3"),
- "C10": ("model_checking", "mp4ff-crop pipeline on progressive files (1-2 tracks, chunk layouts, sync tables, ctts): output is a prefix of every track with identical bytes, durations, offsets and sync flags; symbolic crop time", "z3"),
+ "C08": ("model_checking", "lazy-mdat decode of a progressive file gives the same tree, sizes and positions as full decode; ReadData/CopyData/CopySampleData over symbolic byte and sample ranges (ranges ending at the last byte, spanning chunks, small work buffer, readers returning short and zero-length reads) return the same bytes in both modes; a lazily decoded mdat encodes exactly its header", "z3"),
+ "C09": ("model_checking", "every sample-table query (stts/ctts/stsc/stsz/stco/co64/stss: decode time, duration, sample at time, composition offset, sizes, sync, chunk of sample, chunk contents/offsets, containing chunks, byte ranges, per-interval metadata) equals the naive per-sample expansion for every sample number and interval; symbolic table entries, bounded entry counts", "z3"),
+ "C10": ("model_checking", "mp4ff-crop pipeline on progressive files (1-2 tracks, chunk layouts, sync tables, ctts): each output track is exactly the first k samples of the input track (bytes, durations, composition offsets, sync flags), k by the reference track's first sync sample at or after the requested duration, chunk offsets inside the new mdat, header durations not above the originals; symbolic crop time and payload", "z3"),
  "C11": ("model_checking", "segmenter (single, multiplexed, lazy), resegmenter, combine-segs and Fragmentify conserve every sample of every track in order with bytes, durations, decode times, composition offsets and sync flags; layouts incl. multi-run stts", "z3"),
- "C12": ("model_checking", "File/MediaSegment/Fragment Size() and byte positions agree with the encoded bytes for segment layouts with styp/sidx/emsg/mfra, symbolic payload sizes", "z3"),
- "C13": ("model_checking", "bits package: reader/writer round-trips for every width 0..64 at every bit offset, Exp-Golomb and EBSP handling, accumulated-error behaviour; symbolic values", "z3"),
- "C14": ("model_checking", "NAL unit walkers of avc/hevc: no panic and agreement with an independent reference scan for every length-prefixed / Annex-B buffer up to the bound, symbolic bytes", "z3"),
+ "C12": ("model_checking", "fragmented files with styp / top-level sidx / mfra / start-on-moof layouts: every moof+mdat lands in exactly one segment in order, default-mode re-encode is byte identical, and after UpdateSidx the references are contiguous, start at the first byte of their segment, end at the end of the media and carry the summed durations; MediaSegment/Fragment/File Size() equal the encoded lengths", "z3"),
+ "C13": ("model_checking", "bits package: fixed-width, flag, ue(v) and se(v) values written by the writers are read back identically for every width 1..64 at every bit offset; the EBSP writer emits no 00 00 0x start-code emulation, inserts escapes only where required and the EBSP reader returns exactly the written bytes with position counters in the escaped stream; symbolic values and bytes", "z3"),
+ "C14": ("model_checking", "Annex B (3/4-byte start codes in any mix) <-> 4-byte length-prefixed conversion preserves the NAL unit sequence; the word-at-a-time start code scanner equals a byte-by-byte reference scan; the sample/byte-stream walkers of avc and hevc (NAL list, types, parameter sets, first video NAL, contains type, IDR/RAP) agree with that sequence; symbolic buffers up to the bound", "z3"),
  "C15": ("model_checking", "AVC only: an independent serializer of ISO/IEC 14496-10 7.3.2.1 / 7.3.2.2 / 7.3.3 (own bit writer and Exp-Golomb coder) produces SPS, PPS and I-slice headers from symbolic field values; the parsers must return those values, width/height by the cropping formula, resolve slice -> PPS -> SPS through the ids (pps id != sps id), and report the header size; CreateAVCDecConfRec / CodecString carry profile, compatibility, level, chroma format, bit depths and the NAL units verbatim. Bound: code-length classes of the ue/se elements are concrete per instance, info bits symbolic; no scaling lists, HRD or slice groups; HEVC parsers are outside the claim", "z3"),
- "C16": ("model_checking", "codec descriptors (esds/AAC ASC, avcC, hvcC, av1C, SEI containers): decode -> encode byte identity and Size agreement, symbolic payload", "z3"),
- "C17": ("model_checking", "SEI message parsing: payload type/size extension bytes, no panic, round-trip of supported messages, symbolic bytes up to the bound", "z3"),
- "C18": ("model_checking", "AAC ADTS / AudioSpecificConfig: header fields round-trip, frame length arithmetic, symbolic header bits", "z3"),
- "C19": ("model_checking", "emsg / sidx / tfra style index boxes and time arithmetic: 64-bit values survive, no truncation at 2^32, symbolic values", "z3"),
+ "C16": ("model_checking", "untrusted elementary-stream bytes: NAL walkers, Annex B scanners, SPS/PPS/VPS/slice header parsers, SEI extraction and message decoders with their String/Payload methods, ADTS and AudioSpecificConfig decoders, AVC/HEVC/AV1 configuration record decoders never panic, never exceed the step budget and allocate at most a small multiple of the input length; fully symbolic input up to the bound", "z3"),
+ "C17": ("model_checking", "SEI write -> extract returns the same (type, payload) list incl. types/sizes >= 255 and payloads needing emulation prevention; typed messages with a serialiser (AVC pic timing, time code, mastering display, content light level) round-trip with Size() == serialised length; pass-through messages keep their payload; symbolic payloads", "z3"),
+ "C18": ("model_checking", "AudioSpecificConfig encode -> decode is the identity for every frequency (table index or explicit 24-bit), channel configuration and supported object type incl. SBR/PS extension; ADTS header encode -> decode for every frequency index, channel configuration and 13-bit length, with the sync-word offset when junk precedes; AAC sample entry round trip; symbolic fields", "z3"),
+ "C19": ("model_checking", "init segments built through CreateEmptyInit / AddEmptyTrack / Set*Descriptor: unique track ids 1..n, one trex per track, next_track_ID above all ids, handler/media header matching the media type, sample entry carrying the supplied dimensions, configuration and parameter sets; encodes, decodes to an equal tree, is a fragmented init, fragments for its track ids decode against it; symbolic ids, timescales and parameters in a bounded shape", "z3"),
  "C20": ("other", "bounded symbolic non-interference check: the library starts no goroutine and takes no lock, so two goroutines working on distinct structures can only interfere through memory both can reach (package-level state, the shared input slice). Every operation (file decode/info/encode/decrypt, and decode/Info/encode of one box of every registered type with symbolic payload) is executed symbolically under a write-set monitor: a feasible store into the shared input buffer or into an object reachable from a package-level variable is a violation, replayed natively as two goroutines under the race detector. Schedules are not enumerated: an empty shared write set makes every interleaving equivalent to the run alone", "cvc5"),
 }
 checks = []
